@@ -88,8 +88,33 @@ def scan(repo):
     return out
 
 
-def emit(repo, enumeration_classes):
+ARITH = ("__call__", "__matmul__", "__rmatmul__", "__add__", "__radd__", "__sub__", "__rsub__", "__mul__", "__rmul__", "__truediv__", "__neg__")
+
+
+def scan_overriders(repo, linear_names):
+    """-> {class: [arithmetic dunders it defines]} for the LinearOperator classes of the source (ast)"""
+    root = pathlib.Path(repo) / "scico"
+    out = {}
+    for f in sorted(root.rglob("*.py")):
+        rel = f.relative_to(root).as_posix()
+        if "/test" in "/" + rel or rel.endswith(("astra.py", "svmbir.py")):
+            continue
+        try:
+            tree = ast.parse(f.read_text())
+        except SyntaxError:
+            continue
+        for node in ast.walk(tree):
+            if isinstance(node, ast.ClassDef) and node.name in linear_names:
+                ov = sorted(m.name for m in node.body if isinstance(m, ast.FunctionDef) and m.name in ARITH)
+                if ov:
+                    out[node.name] = ov
+    return out
+
+
+def emit(repo, enumeration_classes, calculus_left=None):
     src = scan(repo)
+    over = scan_overriders(repo, {k.split("@")[0] for k in src})
+    calc = sorted(set((calculus_left or {}).values()))
     covered = set()
     for c in enumeration_classes:
         covered.add(c)
@@ -120,6 +145,14 @@ def emit(repo, enumeration_classes):
         "-/",
         f"def excluded : List String := {lst(sorted(EXCLUDED))}",
         "",
+        "/-- LinearOperator classes that define an arithmetic dunder of their own (`__call__`, `__matmul__`, `__add__`, ...): " + "; ".join(f"{k}: {' '.join(v)}" for k, v in sorted(over.items())) + " -/",
+        f"def arithmeticOverriders : List String := {lst(sorted(over))}",
+        "",
+        "/-- classes instantiated as the LinearOperator side of the operator arithmetic with a NON-linear Operator (class CalculusMixed) -/",
+        f"def calculusLeft : List String := {lst(calc)}",
+        "",
+        "-- every class with arithmetic of its own is combined with non-linear operators by the tie (the result must not be presented as linear)",
+        ("example : arithmeticOverriders.all (fun c => calculusLeft.contains c) = true := by decide" if calculus_left is not None else "-- (no calculus table given)"),
         "-- every class presented as a linear operator is enumerated or pinned",
         "example : sourceClasses.all (fun c => covered.contains c || excluded.contains c) = true := by decide",
         "-- no stale pin, no stale claim",
@@ -134,4 +167,5 @@ def emit(repo, enumeration_classes):
         GEN.write_text(text)
     missing = sorted(c for c in src if c not in covered and c not in EXCLUDED)
     stale = sorted(c for c in EXCLUDED if c not in src) + sorted(c for c in claimed if c not in src)
+    missing = missing + sorted(f"{c} (arithmetic not combined with a non-linear operator)" for c in over if calculus_left is not None and c not in calc)
     return MODULE, src, missing, stale
